@@ -49,6 +49,7 @@ BUILD_CODES = [
 ]
 
 CAUSED_BY = {
+    "inline-name-not-unique": ["build/"],
     "length-target-not-a-packet": ["build/", "length-patch-shape", "unsupported-target-kind", "length-target-bookkeeping",
                                    "step-type-vs-member-type", "cpp-arrow-vs-member-kind", "reference-to-undeclared"],
     "field-name-is-keyword": ["build/rust/identifier", "build/java/identifier", "build/cpp/identifier", "build/python/", "build/cpp/syntax", "build/java/syntax",
@@ -165,6 +166,22 @@ packet Leg {
 """
 
 
+_OPTS = """options {
+    JavaPackage = "com.example.msg";
+    GoPackage = "msg";
+    GoModule = "example.com/msg";
+}
+
+"""
+# inline-object names that are not unique in the program: the same object in two packets, two different objects of
+# one name, an inline object called like a packet
+INLINE_NAMES = [
+    _OPTS + "root packet NewOrder {\n    u32 Id,\n    repeat Leg {\n        u16 No,\n        string Sym,\n    },\n}\n\npacket CancelOrder {\n    u32 Id,\n    repeat Leg {\n        u16 No,\n        string Sym,\n    },\n}\n",
+    _OPTS + "root packet NewOrder {\n    u32 Id,\n    Leg {\n        u16 No,\n    },\n}\n\npacket CancelOrder {\n    Leg {\n        string Sym,\n        u8 Side,\n    },\n}\n",
+    _OPTS + "root packet Order {\n    u32 Id,\n    Leg {\n        u16 No,\n    },\n    Leg Other,\n}\n\npacket Leg {\n    string Sym,\n}\n",
+]
+
+
 def odd_length_target(text):
     """does a @lengthOf of this text (default layout) aim at something other than one packet-typed / inline / match member?"""
     m = re.search(r"@lengthOf\((\w+)\)", text)
@@ -215,6 +232,7 @@ def run_c07(ctx):
             prof = "safe"
         items.append((prof, t))
     items += [("safe", t) for t in pipeline.corpus_texts()]
+    items += [("inl", t) for t in INLINE_NAMES]
     items += [("len", LEN_TARGET % decl) for decl in ("string Body", "u32 Body", "char[4] Body", "repeat u16 Body", "repeat Leg Body", "repeat string Body")]
     texts = [t for _, t in items]
     results = pipeline.run_pipeline(texts, "c07-%s-%d" % (ctx.tier, ctx.seed))
@@ -240,7 +258,7 @@ def run_c07(ctx):
                 real_finding = ctx.finding
                 if prof != "safe":
                     cause = {"char": "char-scalar-unsupported", "names": "names-not-case-stable", "kw": "field-name-is-keyword",
-                             "len": "length-target-not-a-packet"}[prof]
+                             "len": "length-target-not-a-packet", "inl": "inline-name-not-unique"}[prof]
 
                     def collapsed(sig, what, replay=None, found=True, _c=cause, _l=lang):
                         # only findings this construct can plausibly cause are folded into its signature
@@ -250,7 +268,12 @@ def run_c07(ctx):
                     ctx_finding = collapsed
                 else:
                     ctx_finding = real_finding
-                if lang == "lua":
+                by_build_only = prof == "inl"
+                if by_build_only:
+                    # the wire specification (and with it the extractors' struct tables and the validators) identifies a packet by its
+                    # name; a program that uses one name for two objects is outside their domain — decided by the target toolchains alone
+                    ent = dict(ent, extract={"residue": [], "markers": [], "issues": []}, conform={})
+                elif lang == "lua":
                     import lua as tvlua
                     ex = tvlua.extract(ent["files"])
                     ent = dict(ent, extract={k: ex.get(k) for k in ("residue", "markers", "issues")})
@@ -418,7 +441,16 @@ def meta_inline_rewrite(p, rng):
     return p
 
 
-REWRITES = [("alias", alias_rewrite), ("zchar", zchar_rewrite), ("attr-placement", attr_place_rewrite), ("key-list", keylist_rewrite),
+def empty_pad_rewrite(p, rng):
+    """`@leftPad()` <-> `@leftPad(' ')`: the argument defaults to a space"""
+    for pk in p["packets"]:
+        for f in pk["fields"]:
+            if f.get("pad") and f["pad"][1] in ("", "' '") and rng.random() < 0.7:
+                f["pad"] = (f["pad"][0], "' '" if f["pad"][1] == "" else "")
+    return p
+
+
+REWRITES = [("empty-pad", empty_pad_rewrite), ("alias", alias_rewrite), ("zchar", zchar_rewrite), ("attr-placement", attr_place_rewrite), ("key-list", keylist_rewrite),
             ("doc", doc_rewrite), ("default-options", default_options_rewrite), ("default-pad", default_pad_rewrite),
             ("metadata-inline", meta_inline_rewrite)]
 
